@@ -579,7 +579,14 @@ get_trait_flag(trait_object *trait, unsigned int mask)
 static int
 set_trait_flag(trait_object *trait, unsigned int mask, PyObject *value)
 {
-    int flag = PyObject_IsTrue(value);
+    int flag;
+
+    if (value == NULL) {
+        PyErr_SetString(PyExc_TypeError, "Cannot delete attribute");
+        return -1;
+    }
+
+    flag = PyObject_IsTrue(value);
 
     if (flag == -1) {
         return -1;
@@ -5096,7 +5103,7 @@ get_trait_dict(trait_object *trait, void *closure)
 static int
 set_trait_dict(trait_object *trait, PyObject *value, void *closure)
 {
-    if (!PyDict_Check(value)) {
+    if ((value == NULL) || !PyDict_Check(value)) {
         return dictionary_error();
     }
     return set_value(&trait->obj_dict, value);
